@@ -335,7 +335,7 @@ POLS = ["HH", "HV", "VH", "VV"]
 
 
 def gen_plan(rng, max_lines=40, max_pixels=32, max_images=8, level=None, big=False, large=0.03,
-             huge=0.012, n_images=None):
+             huge=0.012, n_images=None, giant=0.0):
     level = level or rng.choice(["1.1", "1.5", "1.5", "3.1"])
     n_img = rng.choice([1, 1, 2, 2, 3, rng.randint(1, max_images)])
     if n_images is not None:
@@ -382,6 +382,14 @@ def gen_plan(rng, max_lines=40, max_pixels=32, max_images=8, level=None, big=Fal
                 rng.randint(2500, 5000) if level == "1.1" else rng.randint(10000, 20000))
         while PREFIX[level] + base[1] * (8 if level == "1.1" else 2) < 5.6 * 2**20 / base[0]:
             base = (base[0] + 20, base[1])
+        same_shape = True
+        combos = combos[:1]
+    if rng.random() < giant:
+        # one image file of 110-140 MB made of ~1 MB records: request caps / piecewise reads with
+        # limits of 64-128 MiB are crossed only by files like this (beyond that: out of reach)
+        # (the descriptor's record-length field has six digits: records stay below 1 000 000 bytes)
+        base = (rng.randint(118, 140),
+                rng.randint(118000, 124900) if level == "1.1" else rng.randint(472000, 499900))
         same_shape = True
         combos = combos[:1]
     images = []
